@@ -57,7 +57,7 @@ class Timezone(datetime.tzinfo):
     @classmethod
     def fromstring(cls, text: str) -> 'Timezone':
         try:
-            hours, minutes = text.strip().split(':')
+            hours, minutes = text.strip(' \t\n\r').split(':')
             if hours.startswith('-'):
                 return cls(datetime.timedelta(hours=int(hours), minutes=-int(minutes)))
             else:
@@ -65,7 +65,7 @@ class Timezone(datetime.tzinfo):
         except AttributeError:
             raise TypeError("argument is not a string")
         except ValueError:
-            if text.strip() == 'Z':
+            if text.strip(' \t\n\r') == 'Z':
                 return cls(datetime.timedelta(0))
             raise ValueError("%r: not an XSD timezone formatted string" % text) from None
 
@@ -435,7 +435,7 @@ class AbstractDateTime(AnyAtomicType):
             msg = '2nd argument has an invalid type {!r}'
             raise TypeError(msg.format(type(tzinfo)))
 
-        match = cls.pattern.match(datetime_string.strip())
+        match = cls.pattern.match(datetime_string.strip(' \t\n\r'))
         if match is None:
             msg = 'Invalid datetime string {!r} for {!r}'
             raise ValueError(msg.format(datetime_string, cls))
@@ -1113,7 +1113,7 @@ class Duration(AnyAtomicType):
             msg = 'argument has an invalid type {!r}'
             raise TypeError(msg.format(type(text)))
 
-        match = Duration.pattern.match(text.strip())
+        match = Duration.pattern.match(text.strip(' \t\n\r'))
         if match is None:
             raise ValueError('%r is not an xs:duration value' % text)
 
